@@ -150,6 +150,7 @@ type Exec struct {
 	callSites   []token.Pos
 	directAssigned map[*types.Var]bool
 	litN           int
+	hashOf         map[string]string // hasher handle -> concatenation of everything written to it
 	heapInit       map[string]string // field key -> the array constant that stands for the heap at function entry
 }
 
